@@ -52,6 +52,8 @@ class Engine:
         self.world.fault = tuple(fault) if fault else None
         self.loop = seams.new_loop(max_ticks=max_ticks)
         self.loop.hooks = self
+        # which thread wins the race after call_soon_threadsafe from the (simulated) communicator thread: see SimLoop
+        self.loop.eager_loop_thread = bool((case.get('opts') or {}).get('eager'))
         self.schedule = list(case.get('schedule') or [])
         self.records = []
         self.pending_at = sorted(
